@@ -26,8 +26,26 @@ def main():
     if job.get("budget_s"):
         ctx.deadline = time.time() + job["budget_s"]
     res = {"ok": False}
+    reach = {}
     try:
         repo = os.environ.get("VERIF_REPO", "/repo")
+        src_root = os.path.realpath(os.path.join(repo, "src", "superrec2")) + os.sep
+        if os.environ.get("VERIF_REACH", "1") == "1" and hasattr(sys, "monitoring"):
+            # reach observer: which statements of the code under test the workload executed (DISABLE after first hit)
+            mon = sys.monitoring
+            try:
+                mon.use_tool_id(mon.COVERAGE_ID, "rv-reach")
+
+                def on_line(code, line):
+                    fn = code.co_filename
+                    if fn.startswith(src_root):
+                        reach.setdefault(fn[len(src_root):], set()).add(line)
+                    return mon.DISABLE
+
+                mon.register_callback(mon.COVERAGE_ID, mon.events.LINE, on_line)
+                mon.set_events(mon.COVERAGE_ID, mon.events.LINE)
+            except ValueError:
+                pass
         import superrec2
 
         src = os.path.realpath(os.path.dirname(superrec2.__file__))
@@ -54,6 +72,7 @@ def main():
         res = ctx.result()
         res["ok"] = False
         res["error"] = "".join(traceback.format_exception(exc))[-6000:]
+    res["reach"] = {k: sorted(v) for k, v in reach.items()}
     with open(out_path, "w") as fh:
         json.dump(res, fh)
 
